@@ -52,7 +52,7 @@ func (c10) Runs(t Tier) int {
 }
 func (c10) RecordWidths() map[string]int { return nil }
 func (c10) RequiredProbes() []string {
-	return []string{"concurrent-builders", "default-chunker", "default-chunker-at-block-boundary", "mixed-link-lengths", "aliased-entries", "non-murmur-hasher", "file-fragmentation", "rabin-chunker", "dir-permutation", "sharded-permutation", "quick-builder", "distinct-commit-orders>=2", "nested-shards", "straddles-shard-threshold", "multi-level-file"}
+	return []string{"concurrent-builders", "sequential-builds-on-one-link-system", "default-chunker", "default-chunker-at-block-boundary", "mixed-link-lengths", "aliased-entries", "non-murmur-hasher", "file-fragmentation", "rabin-chunker", "dir-permutation", "sharded-permutation", "quick-builder", "distinct-commit-orders>=2", "nested-shards", "straddles-shard-threshold", "multi-level-file"}
 }
 
 type c10Scenario struct {
@@ -427,6 +427,38 @@ func c10Concurrent(ts *tape.Set, tier Tier, res *Result) *Result {
 		}
 		alone = append(alone, br)
 	}
+	// one after the other on ONE link system and store (j0, j1, .., j0 again):
+	// nothing a build leaves behind may change what a later build returns
+	{
+		sst := store.New()
+		sw := world.New(sst, false)
+		old := builder.DefaultLinksPerBlock
+		builder.DefaultLinksPerBlock = width
+		seq := append(append([]int(nil), rangeInts(len(jobs))...), 0)
+		for _, i := range seq {
+			var l ipld.Link
+			var sz uint64
+			var err error
+			panicked, site, pmsg := guard(func() { l, sz, err = jobs[i].run(&sw.LS) })
+			res.Execs++
+			if panicked {
+				builder.DefaultLinksPerBlock = old
+				res.Violation = &Violation{Class: "c10/panic@" + site, Msg: jobs[i].name + " panicked when built after other builds on the same link system: " + pmsg}
+				return res
+			}
+			ls := ""
+			if l != nil {
+				ls = l.String()
+			}
+			if err != nil || ls != alone[i].link || sz != alone[i].size {
+				builder.DefaultLinksPerBlock = old
+				res.Violation = &Violation{Class: "c10/result-depends-on-earlier-builds", Msg: fmt.Sprintf("%s returns (%s, %d) alone and (%s, %d, err=%v) when built after other builds on the same link system", jobs[i].name, alone[i].link, alone[i].size, ls, sz, err)}
+				return res
+			}
+		}
+		builder.DefaultLinksPerBlock = old
+		res.probe("sequential-builds-on-one-link-system")
+	}
 	// together
 	st := store.New()
 	w := world.New(st, false)
@@ -481,6 +513,14 @@ func c10Concurrent(ts *tape.Set, tier Tier, res *Result) *Result {
 		}
 	}
 	return res
+}
+
+func rangeInts(n int) []int {
+	out := make([]int, n)
+	for i := range out {
+		out[i] = i
+	}
+	return out
 }
 
 type fixedNode struct {
